@@ -378,12 +378,12 @@ func replayRead(c *Ctx, v *Violation) string {
 
 func init() {
 	Register(&Monitor{ID: "C02", Run: func(c *Ctx) {
-		c.Rule = "seeded value streams rendered by the independent text printer with a random spelling choice at every token (whitespace, comments, radix/underscore/exponent forms, escapes, long-string segmentation, quoted/operator/$n symbols, lob layout, trailing commas, local symbol tables); each rendering must first parse back to the model under the reference parser, then ion-go's Reader must yield the model. Non-trivial: >=2 non-canonical spelling choices and >=1 non-null value; distinct by rendered text."
+		c.Rule = "seeded value streams rendered by the independent text printer with a random spelling choice at every token (whitespace, comments, radix/underscore/exponent forms, escapes, long-string segmentation, quoted/operator/$n symbols, lob layout, trailing commas, local symbol tables); each rendering must first parse back to the model under the reference parser, then ion-go's Reader must yield the model; a buffer-boundary sweep shifts short documents by whitespace/comment filler so that every sampled offset of the document falls on a multiple of 4096 bytes of input; streams that resemble symbol tables and version markers without being any. Non-trivial: >=2 non-canonical spelling choices and >=1 non-null value; distinct by rendered text."
 		c.Assume("reftext implements the Ion 1.0 text grammar (DESIGN.md appendix A); doubtful spellings are not generated (DESIGN.md section 5)")
 		runReadMonitor(c, "text-read", false)
 	}, Replay: replayRead})
 	Register(&Monitor{ID: "C03", Run: func(c *Ctx) {
-		c.Rule = "seeded value streams encoded by the independent binary encoder with random representation choices (inline vs VarUInt lengths, padded VarUInt/VarInt/int/SID, float32/64, decimal/timestamp sub-field forms, NOP pads at top level, in sequences and in structs, sorted-field structs, repeated version markers, multi-segment symbol tables incl. append, duplicate/gap symbols, annotation wrappers around every kind); each encoding must first decode to the model under the reference decoder, then ion-go's Reader must yield the model. Non-trivial: >=2 non-canonical choices and >=1 non-null value; distinct by encoded bytes."
+		c.Rule = "seeded value streams encoded by the independent binary encoder with random representation choices (inline vs VarUInt lengths, padded VarUInt/VarInt/int/SID, float32/64, decimal/timestamp sub-field forms, NOP pads at top level, in sequences and in structs, sorted-field structs, repeated version markers, multi-segment symbol tables incl. append, duplicate/gap symbols, annotation wrappers around every kind); each encoding must first decode to the model under the reference decoder, then ion-go's Reader must yield the model; a buffer-boundary sweep shifts short documents by NOP pads so that every sampled offset of the document falls on a multiple of 4096 bytes of input; streams that resemble symbol tables and version markers without being any. Non-trivial: >=2 non-canonical choices and >=1 non-null value; distinct by encoded bytes."
 		c.Assume("refbin implements the Ion 1.0 binary format (DESIGN.md appendix A)")
 		runReadMonitor(c, "binary-read", true)
 	}, Replay: replayRead})
